@@ -265,3 +265,32 @@ Print Assumptions C18_future_second_fill_panics.
 Print Assumptions C18_lazy.
 Print Assumptions C18_map_refines_syncmap.
 Print Assumptions C18_map_old_code_refuted.
+
+(* ---- the correspondence check's history matchers are certified (Conc/WatchMatcher.v): the canonical-state
+        reduction of the Watchable matcher is a bisimulation; Future and Lazy use the generic matcher ---- *)
+From Juniper Require Conc.GoLTS Conc.Watch Conc.Future Conc.WatchMatcher.
+
+Theorem C18_watch_matcher_sound : forall cfg ng evs,
+    Watch.accepts_history cfg ng evs = true ->
+    exists ls s, GoLTS.run Watch.qstep (Watch.init cfg ng) ls = Some s /\ WatchMatcher.WatchM.watch_trace ls = evs.
+Proof. exact WatchMatcher.WatchM.watch_accepts_sound. Qed.
+
+Theorem C18_watch_matcher_rejections_genuine : forall cfg ng evs,
+    WatchMatcher.WatchM.watch_converged cfg ng evs = true -> Watch.accepts_history cfg ng evs = false ->
+    forall ls s, GoLTS.run Watch.qstep (Watch.init cfg ng) ls = Some s -> WatchMatcher.WatchM.watch_trace ls <> evs.
+Proof. exact WatchMatcher.WatchM.watch_reject_genuine. Qed.
+
+Theorem C18_future_matcher_sound : forall cfg nctx ng evs,
+    Future.Fut.accepts_history cfg nctx ng evs = true ->
+    exists ls s, GoLTS.run Future.Fut.qstep (Future.Fut.init cfg nctx ng) ls = Some s /\ WatchMatcher.FutM.fut_trace ls = evs.
+Proof. exact WatchMatcher.FutM.fut_accepts_sound. Qed.
+
+Theorem C18_lazy_matcher_sound : forall cfg gated base ng evs,
+    Future.Lazy.accepts_history cfg gated base ng evs = true ->
+    exists ls s, GoLTS.run Future.Lazy.qstep (Future.Lazy.init cfg gated base ng) ls = Some s /\ WatchMatcher.LazyM.lazy_trace ls = evs.
+Proof. exact WatchMatcher.LazyM.lazy_accepts_sound. Qed.
+
+Print Assumptions C18_watch_matcher_sound.
+Print Assumptions C18_watch_matcher_rejections_genuine.
+Print Assumptions C18_future_matcher_sound.
+Print Assumptions C18_lazy_matcher_sound.
